@@ -540,6 +540,45 @@ func runC17(c *Ctx) {
 			})
 		}
 	}
+	// "already known?" is asked about the record that is about to be stored: where decodeRRs inserts into one of its record
+	// maps under the false branch of a look-up in the same map, the inserted key derives from the key that was looked up
+	// (a look-up under the question name and an insert under the owner name keeps only the first alias of a CNAME chain)
+	r.Rule("lookup-insert", "a record is inserted under the key whose absence was tested", 4)
+	if fn := c.P.Method("", "DNSEntry", "decodeRRs"); fn != nil {
+		kgl := core.NewKeyGen()
+		core.EachInstr(fn, func(i ssa.Instruction) {
+			mu, ok := i.(*ssa.MapUpdate)
+			if !ok || !strings.HasPrefix(norm(mu.Map), "recv.") {
+				return
+			}
+			var tested []ssa.Value
+			for _, g := range guardsOf(i) {
+				ex, isE := g.Cond.(*ssa.Extract)
+				if !isE || ex.Index != 1 || g.Pol {
+					continue
+				}
+				if lk, isL := ex.Tuple.(*ssa.Lookup); isL && norm(lk.X) == norm(mu.Map) {
+					tested = append(tested, lk.Index)
+				}
+			}
+			if len(tested) == 0 {
+				return
+			}
+			agree := false
+			for _, tk := range tested {
+				if tk == mu.Key || norm(tk) == norm(mu.Key) || dataSlice(fn, mu.Key)[tk] {
+					agree = true
+				}
+			}
+			st, det := core.Proved, ""
+			if !agree {
+				st = core.Violated
+				det = "decodeRRs inserts into " + norm(mu.Map) + " under " + norm(mu.Key) + " after testing the absence of " + norm(tested[0]) + ": records whose key differs from the tested one are dropped once the tested key is present"
+			}
+			r.Add(core.Obligation{Rule: "lookup-insert", Key: strings.TrimSuffix(kgl.Key("lookup-insert decodeRRs "+norm(mu.Map)), "#0"), Func: core.FuncName(fn), Pos: c.P.Pos(core.PosOf(i)), Status: st,
+				Basis: "inserted key derives from the looked-up key", Detail: det})
+		})
+	}
 	// an address record is stored under the address its rdata holds: the key of IP4Records / IP6Records is what
 	// netip.AddrFromSlice (AddrFrom4 / AddrFrom16) made of the rdata bytes, with no further conversion (Unmap turns the
 	// well-formed AAAA ::ffff:192.0.2.7 into an IPv4 address in the AAAA table)
